@@ -299,6 +299,7 @@ OneVotePerRound == \A a, b \in msgs : (a.src \in Honest /\ a.src = b.src /\ a.ro
                                        /\ a.type \in {"P", "C", "PP"}) => a.value = b.value
 \* rounds never decrease while undecided (a decision may adopt the -- possibly older -- round it was taken in)
 RoundMonotonic == [][\A p \in Honest : st'[p].round >= st[p].round \/ st'[p].decided]_vars
-TypeOK == \A p \in Honest : st[p].round >= 1 /\ st[p].pr <= st[p].round
+\* (a decision adopts the round it was taken in, which may be older than the member's prepared round)
+TypeOK == \A p \in Honest : st[p].round >= 1 /\ (st[p].pr <= st[p].round \/ st[p].decided)
 Safety == Agreement /\ DecideOnce /\ NonZero /\ LeaderProposed /\ Validity /\ QuorumBacked /\ OneVotePerRound /\ TypeOK
 ====
